@@ -900,6 +900,11 @@ class Tr(object):
             if name == "push" and len(args) == 1 and recv[0] == "path" and recv[1][0] in env and env[recv[1][0]].mutable and env[recv[1][0]].ty == "reasons":
                 v = env[recv[1][0]].coq
                 return self.bind_text("push_reason %s %s" % (v, self.pure(args[0], env)), v, k("tt", env), env)
+            if name == "push" and len(args) == 1 and recv[0] == "path" and recv[1][0] in env and env[recv[1][0]].mutable and (env[recv[1][0]].ty or "").startswith("capvec:"):
+                # ArrayVec::push on a vector held as the list of its visible part: capacity test, then append (proofs/Gen2_equiv_arrayvec.v)
+                v = env[recv[1][0]].coq
+                _t, cap, site = env[recv[1][0]].ty.split(":", 2)
+                return self.bind_text('capped_push %s "%s" %s %s' % (cap, site, v, self.pure(args[0], env)), v, k("tt", env), env)
             if name == "copy_from_slice":
                 return self.copy_from_slice(recv, args[0], env, k)
             if name == "try_write":
@@ -1618,6 +1623,12 @@ Definition set_header_list (added : list header) (k v : bytes) : res (list heade
 (* src/parser.rs works on what httparse returns: the outcome of parse() and the fields of the Response / Request it filled in.
    The http builder keeps version, status (or method) and the fields added so far; body(()) fails on a name it does not accept
    (Parser.builder_ok) and otherwise yields the model's response with the HeaderMap of those fields. *)
+(* ArrayVec::push on the visible part: capacity test, then append (Gen2_equiv_arrayvec.v proves this of the translated push) *)
+Definition capped_push {T : Type} (cap : N) (site : string) (l : list T) (v : T) : res (list T) :=
+  if cap <=? len l then Panic site else Ok (l ++ [v]).
+(* http's TryFrom conversions into HeaderName / HeaderValue: the model's validity tests; a name is stored lower-cased *)
+Definition header_name_try_from (k : bytes) : option bytes := if valid_header_name k then Some (lower k) else None.
+Definition header_value_try_from (v : bytes) : option bytes := if valid_header_value v then Some v else None.
 (* what Flow<SendRequest>::can_proceed sees of the call holder: the variant and, for the two sending calls, the phase *)
 Inductive holder_view := HvWithoutBody (p : phase) | HvWithBody (p : phase) | HvOther.
 (* a store into a fixed-size array: index out of bounds panics *)
@@ -2072,6 +2083,19 @@ FLOWFUNCS = [
          subst=[(r"let call = self\.inner\.call\.as_with_body_mut\(\);", ""), (r"call\.is_chunked\(\)", "is_chunked")],
          params=[("is_chunked", "val", "bool", None), ("output_len", "val", "N", None)],
          functions={"calculate_max_input": "gen_calculate_max_input"}, rust_ret="usize"),
+    # src/client/amended.rs: set_header / unset_header -- name (and value) converted and validated (http's TryFrom: the model's
+    # valid_header_name / valid_header_value, names lower-cased), then pushed onto the ArrayVec (capped_push: ArrayVec::push, above)
+    dict(coq="gen_am_set_header", file="src/client/amended.rs", impl=r"impl<Body>\s+AmendedRequest<Body>", rust="set_header",
+         subst=[(r"<HeaderName as TryFrom<K>>::try_from\(name\)\s*\.map_err\(Into::into\)", "header_name_try_from(name)"),
+                (r"<HeaderValue as TryFrom<V>>::try_from\(value\)\s*\.map_err\(Into::into\)", "header_value_try_from(value)"),
+                (r"self\.headers", "added")],
+         params=[("added", "mutval", "list header", 'capvec:MAX_EXTRA_HEADERS:util.rs: ArrayVec::push (extra headers)'), ("name", "val", "bytes", None), ("value", "val", "bytes", None)],
+         functions={"header_name_try_from": "header_name_try_from", "header_value_try_from": "header_value_try_from"}, rust_ret="Result<(), Error>"),
+    dict(coq="gen_am_unset_header", file="src/client/amended.rs", impl=r"impl<Body>\s+AmendedRequest<Body>", rust="unset_header",
+         subst=[(r"<HeaderName as TryFrom<K>>::try_from\(name\)\s*\.map_err\(Into::into\)", "header_name_try_from(name)"),
+                (r"self\.unset", "unset")],
+         params=[("unset", "mutval", "list bytes", 'capvec:UNSET_CAP:util.rs: ArrayVec::push (unset)'), ("name", "val", "bytes", None)],
+         functions={"header_name_try_from": "header_name_try_from"}, rust_ret="Result<(), Error>"),
     # src/ext.rs: HeaderIterExt::has (the test behind `Connection: close` and `Expect: 100-continue`): some field with that name has that value
     dict(coq="gen_headers_has", file="src/ext.rs", impl=None, rust="has", kind="plain", bytes_vars=["key", "value"],
          subst=[(r"self\s*\.filter", "headers.iter().filter")],
